@@ -612,7 +612,7 @@ impl Sim {
             oracles::price_feed::oracle::state_ext::StateReadExt as _,
         };
         let empty = abci::types::ExtendedCommitInfo { votes: vec![], round: 0u16.into() };
-        if height < 3 || !matches!(self.profile.as_str(), "paths" | "mixed") {
+        if height < 3 || !matches!(self.profile.as_str(), "paths" | "mixed" | "proposals") {
             return empty;
         }
         let enabled = self.nodes[node].app.vote_extensions_enabled(Height::try_from(height).unwrap()).await.unwrap_or(false);
